@@ -3,10 +3,9 @@ to the accepted credential are the ones enforced afterwards").
 
 A table row of the specification is an abstract credential (method,
 authorized_keys entries, certificate contents, application callbacks, client
-address, user name) plus
-the specification's verdicts.  `run_case` materialises the credential with
-real keys / certificates / authorized_keys text, starts a real asyncssh server
-on the deterministic loop, lets a real asyncssh client authenticate with the
+address, user name) plus the specification's verdicts.  `run_case`
+materialises the credential with real keys / certificates / authorized_keys
+text, starts a real asyncssh server on the deterministic loop, lets a real asyncssh client authenticate with the
 credential and then attempt every post-authentication operation, and reports
 what the *server application* and the *client* saw:
 
@@ -19,6 +18,15 @@ what the *server application* and the *client* saw:
   started[req]             what the server session was asked to run for the
                            client's exec / shell / subsystem request
   env                      environment the server session saw
+
+Rows of specs/Auth/RestrictSeq.tla (case['steps'], case['files']) are request
+SEQUENCES on one connection: the server installs per-user authorized keys in
+begin_auth, a raw peer (harness/rawpeer.py) sends every USERAUTH_REQUEST with
+its own user name and credential - publickey query / signed / wrong
+signature (plain key or certificate), right / wrong password - and records
+each reply (out['replies']); after USERAUTH_SUCCESS the same connection
+object is switched back to an ordinary asyncssh client connection, so that
+the probes above are shared.
 """
 
 import os
@@ -143,7 +151,10 @@ class _TCPSession(asyncssh.SSHTCPSession):
 
 def run_case(case, ops=PERM_OPS, requests=(), dests=(), client_env=None):
     """case: dict(method='publickey'|'password', entries=[entry...],
-    cert=None|dict, cb_key=bool, cb_ca=bool, user, addr).  ops: permission-guarded operations to attempt;
+    cert=None|dict, cb_key=bool, cb_ca=bool, user, addr), or for request
+    sequences dict(files={user: [entry...]}, steps=[dict(kind, user,
+    cred=None|cert dict)], cb_key, cb_ca, addr).
+    ops: permission-guarded operations to attempt;
     requests: session requests ('exec:<cmd>', 'shell', 'subsystem:<name>');
     dests: extra direct-tcpip destinations 'host:port' (permitopen rows)."""
     loop = new_loop()
@@ -476,7 +487,8 @@ def run_case(case, ops=PERM_OPS, requests=(), dests=(), client_env=None):
 # specification row -> case
 # ---------------------------------------------------------------------------
 
-CMD_TEXT = {'kc': 'key-cmd --x', 'cc': 'cert-cmd --y', 'empty': '',
+CMD_TEXT = {'kc': 'key-cmd --x', 'kp': 'ca-entry-cmd',
+            'cc': 'cert-cmd --y', 'empty': '',
             'kq': 'k,c "q" \\x no-pty,y', 'rc': 'requested-cmd'}
 ENV_TEXT = {'kv': 'key-value', 'cv': 'client-value', '-': None}
 
